@@ -5,6 +5,23 @@ import Cirbo.Proofs.Passes
 namespace Cirbo
 open GateType Circuit
 
+/-- arities accepted by every gate (the part of well-formedness the C02 invariant leaves open) -/
+def ArOK (c : Circuit) : Prop := ∀ g ∈ c.gates, if g.ty = INPUT then g.ops = [] else arityOk g.ty g.ops.length = true
+
+/-- gates of `c'` have the type and operand count of gates of `c` -/
+def SameShape (c c' : Circuit) : Prop :=
+  ∀ g' ∈ c'.gates, ∃ g ∈ c.gates, g'.label = g.label ∧ g'.ty = g.ty ∧ g'.ops.length = g.ops.length
+
+theorem arOK_of_shape {c c' : Circuit} (hs : SameShape c c') (h : ArOK c) : ArOK c' := by
+  intro g' hg'
+  obtain ⟨g, hg, _, ht, hl⟩ := hs g' hg'
+  have := h g hg
+  rw [ht]
+  by_cases hty : g.ty = INPUT
+  · simp only [hty, if_true] at this ⊢
+    rw [this] at hl; exact List.eq_nil_of_length_eq_zero hl
+  · simp only [hty, if_false] at this ⊢; rw [hl]; exact this
+
 /-- emplacing gates of `c` with remapped operands -/
 theorem emplaceAll_spec (c : Circuit) (f : Label → Label) : ∀ (ls : List Label) (init n : Circuit),
     emplaceAll c ls f init = .ok n →
@@ -206,7 +223,7 @@ theorem muoRemap_val {c : Circuit} {v : Label → Bool} {m : MuoMaps} (hm : MInv
 chains; every valuation of the argument is a valuation of the result; inputs kept, outputs
 redirected to signals of equal value -/
 theorem muo_spec {c c' : Circuit} (hw : WFS c) (h : muo c = .ok c') :
-    WFS c' ∧ c'.inputs = c.inputs ∧ c'.outputs.length = c.outputs.length ∧ c'.gates.length = c'.labels.length ∧
+    WFS c' ∧ c'.inputs = c.inputs ∧ c'.outputs.length = c.outputs.length ∧ SameShape c c' ∧
     (∀ b v, IsValB c b v → IsValB c' b v ∧ c'.outputs.map v = c.outputs.map v) := by
   unfold muo at h
   cases hts : c.topSort true with
@@ -236,7 +253,11 @@ theorem muo_spec {c c' : Circuit} (hw : WFS c) (h : muo c = .ok c') :
               rw [setOutputs_gates h, setInputs_gates hsi, g1]; simp [Circuit.empty]
             obtain ⟨hoc, hic⟩ := setOutputs_outputs h
             obtain ⟨hi3, _⟩ := setInputs_inputs hsi
-            refine ⟨w3, by rw [hic, hi3], by rw [hoc]; simp, by simp [labels], ?_⟩
+            refine ⟨w3, by rw [hic, hi3], by rw [hoc]; simp, ?_, ?_⟩
+            · intro g' hg'
+              rw [hgc] at hg'
+              obtain ⟨g, hg, rfl⟩ := g3 g' hg'
+              exact ⟨g, hg, rfl, rfl, by simp⟩
             intro b v hv
             have hm : MInv v m := by
               rw [muoMaps_eq] at hmm
